@@ -91,3 +91,11 @@ From Ahb Require Import Gen.Gen_select Proofs.C09_gen.
 Theorem C09_selection_loop_is_the_regenerated_table : forallb select_row_ok select_rows = true /\ length select_rows = 340.
 Proof. exact (conj select_rows_ok select_rows_complete). Qed.
 Print Assumptions C09_selection_loop_is_the_regenerated_table.
+
+(* ---- ... and evaluate_ahb_expression_tree end to end on a small scope enumerated completely: every AHB expression of one part (five indicator spellings x
+   six condition shapes) or two modal-mark parts (three spellings x four shapes each) x all assignments of the requirement keys x both verdicts of the format
+   constraint (Gen/Gen_ahbeval.v) reports what eval_ahb reports: indicator, requirement result, format result. *)
+From Ahb Require Import Corr.Eval Corr.Validate Gen.Gen_ahbeval Proofs.C09_eval.
+Theorem C09_ahb_evaluation_is_the_regenerated_table : forallb ahb_check ahb_rows = true /\ 1000 <= length ahb_rows.
+Proof. exact (conj ahb_rows_ok ahb_rows_nonempty). Qed.
+Print Assumptions C09_ahb_evaluation_is_the_regenerated_table.
